@@ -2,6 +2,7 @@ package sym
 
 import (
 	"fmt"
+	"go/types"
 	"os"
 	"sort"
 	"strings"
@@ -80,4 +81,16 @@ func (p *Program) Entries(prefix string) []*ssa.Function {
 	}
 	sort.Slice(out, func(i, j int) bool { return out[i].String() < out[j].String() })
 	return out
+}
+
+// namedType finds a named type by package path and name.
+func (p *Program) namedType(pkgPath, name string) types.Type {
+	for _, pkg := range p.Prog.AllPackages() {
+		if pkg.Pkg.Path() == pkgPath {
+			if o := pkg.Pkg.Scope().Lookup(name); o != nil {
+				return o.Type()
+			}
+		}
+	}
+	panic("namedType: " + pkgPath + "." + name + " not found")
 }
